@@ -175,6 +175,64 @@ def snapshot(node):
     return (name, flags, tuple(kids))
 
 
+def deep_state(node, _seen=None):
+    """Identity-level state of a tree for purity checks: for every node reachable through instance attributes its id(), its
+    exact class name (Edited<Class> wrappers are NOT looked through), and every instance attribute (nodes and containers of
+    nodes recursively, primitives by repr). Two snapshots are equal iff no node object was replaced, re-classed or had an
+    attribute rebound/changed."""
+    import graphtage
+    from graphtage.tree import TreeNode
+    if _seen is None:
+        _seen = set()
+
+    def val(v):
+        if isinstance(v, TreeNode):
+            return deep_state(v, _seen)
+        if isinstance(v, dict):
+            return ('dict', tuple((val(k), val(x)) for k, x in v.items()))
+        if isinstance(v, (list, tuple)):
+            return (type(v).__name__, tuple(val(x) for x in v))
+        if isinstance(v, (str, int, float, bool, bytes, type(None))):
+            return repr(v)
+        return ('obj', type(v).__name__)
+    if id(node) in _seen:
+        return ('ref', id(node))
+    _seen.add(id(node))
+    attrs = []
+    for k, v in sorted(getattr(node, '__dict__', {}).items()):
+        if k in ('_parent', '_total_size', '_LeafNode__hash', '_KeyValuePairNode__hash'):
+            continue        # back pointer (cycle) and memoised size / hash
+        attrs.append((k, val(v)))
+    return (id(node), type(node).__name__, tuple(attrs))
+
+
+def build_any(spec, opt):
+    """spec: a JSON-like document, or ('xml', xml_spec) / ('plist', doc) / ('csv', csv_spec) / ('pyobj', doc)."""
+    if isinstance(spec, (tuple, list)) and len(spec) == 2 and spec[0] in ('xml', 'plist', 'csv', 'pyobj', 'mset'):
+        kind, x = spec
+        if kind == 'xml':
+            return build_xml(x), 'xml'
+        if kind == 'csv':
+            return build_csv(x), 'csv'
+        if kind == 'plist':
+            from graphtage.plist import PLISTNode
+            return PLISTNode(build(x, opt)), 'plist'
+        if kind == 'mset':
+            return build_multiset(x, opt), 'json'
+        if kind == 'pyobj':
+            from graphtage import pydiff
+            import graphtage
+            return pydiff.build_tree(_PyObj(x), graphtage.BuildOptions(**opt)), 'json'
+    return build(spec, opt), 'json'
+
+
+class _PyObj:
+    def __init__(self, doc):
+        self.doc = doc
+        self.name = 'n'
+
+
+
 def canon(node):
     """Order-insensitive canonical form: mappings and multisets sorted, lists in order."""
     import graphtage
